@@ -115,20 +115,26 @@ End PPJudge.
          5 flex basis ; ftab: [(token, (number, int))] = flex_grow_shrink *)
 Definition key_eqb (a b : string * list tok) : bool := String.eqb (fst a) (fst b) && toks_eqb (snd a) (snd b).
 
-Definition value_eqb (a b : value Z) : bool :=
+(* the implementation's 'initial' / 'inherit' are plain strings, indistinguishable from a validator's result:
+   [kwid] gives the value id of a keyword *)
+Definition value_eqb (kwid : string -> Z) (a b : value Z) : bool :=
   match a, b with
   | VRaw x, VRaw y => toks_eqb x y
   | VKeyword x, VKeyword y => String.eqb x y
+  | VKeyword x, VVal y => Z.eqb (kwid x) y
   | VPendingProp x n, VPendingProp y m => toks_eqb x y && String.eqb n m
   | VPendingExp x n, VPendingExp y m => toks_eqb x y && String.eqb n m
   | VVal x, VVal y => Z.eqb x y
   | _, _ => false
   end.
 
-Definition nv_eqb (a b : string * value Z) : bool := String.eqb (fst a) (fst b) && value_eqb (snd a) (snd b).
+Definition nv_eqb (kwid : string -> Z) (a b : string * value Z) : bool :=
+  String.eqb (fst a) (fst b) && value_eqb kwid (snd a) (snd b).
 
 Section DispatchJudge.
   Variable known supported : list string.
+  Variable id_initial id_inherit : Z.
+  Definition kwid (k : string) : Z := if String.eqb k "initial" then id_initial else id_inherit.
 
   Definition cls (ctab : list (tok * Z)) (bit : Z) (t : tok) : bool :=
     match lookup_by tok_eqb t ctab with Some m => Z.testbit m bit | None => false end.
@@ -147,7 +153,7 @@ Section DispatchJudge.
     match c with
     | (name, tokens, vtab, ctab, ftab, (code, outs)) =>
         match model_dispatch vtab ctab ftab name tokens, code with
-        | Ok m, 2%nat => if list_eqb nv_eqb m outs then 0%nat else 1%nat
+        | Ok m, 2%nat => if list_eqb (nv_eqb kwid) m outs then 0%nat else 1%nat
         | Invalid, 0%nat => 0%nat
         | Crash, 1%nat => 0%nat
         | _, _ => 1%nat
